@@ -72,4 +72,38 @@ CHECKS = {
         "required_probes": ["history_linearizable", "priority_queue_run", "consumer_blocked_at_end"],
         "assumptions": COMMON_ASSUMPTIONS + ["schedules are explored at the instrumented synchronisation points; code between two points runs atomically"],
     },
+    "C16": {
+        "level": "exploration",
+        "parts": [
+            {"pkg": ".", "test": "TestVerifC16", "instrument": ["connectedness_manager.go", "internal/notify"],
+             "quick": {"seconds": 40, "checks_per_proc": 600}, "thorough": {"seconds": 420, "checks_per_proc": 6000}},
+            {"pkg": "pkg/lifecycle", "test": "TestVerifC16Lifecycle", "instrument": ["pkg/lifecycle", "internal/notify"],
+             "quick": {"seconds": 40, "checks_per_proc": 1500}, "thorough": {"seconds": 420, "checks_per_proc": 10000}},
+            {"pkg": "pkg/tinder", "test": "TestVerifC16PeerCache", "instrument": ["pkg/tinder/peer_cache.go", "internal/notify"],
+             "quick": {"seconds": 40, "checks_per_proc": 1000}, "thorough": {"seconds": 420, "checks_per_proc": 8000}},
+        ],
+        "quick": {"seconds": 40, "checks_per_proc": 600},
+        "thorough": {"seconds": 420, "checks_per_proc": 6000},
+        "rule": "one case = (scenario: 1-2 waiters with their own 'last seen' maps, one updater performing <= 3 associate/update "
+                "operations, optional cancellation, optional pre-association) x one goroutine schedule chosen at every instrumented "
+                "lock/unlock/channel operation of connectedness_manager.go / lifecycle manager / peer cache and of internal/notify; "
+                "non-trivial = at least one preemption; distinct = distinct hash of the scheduler trace. The three parts "
+                "(connectedness tracker, lifecycle manager, peer cache) run as separate worker processes.",
+        "required_probes": ["waiter_blocked_at_end", "history_linearizable", "lifecycle_run", "peercache_run"],
+        "assumptions": COMMON_ASSUMPTIONS + ["schedules are explored at the instrumented synchronisation points; code between two points runs atomically"],
+    },
+    "C09": {
+        "pkg": "pkg/secretstore",
+        "test": "TestVerifC09",
+        "instrument": ["pkg/secretstore"],
+        "level": "exploration",
+        "quick": {"seconds": 30, "checks_per_proc": 300},
+        "thorough": {"seconds": 360, "checks_per_proc": 3000},
+        "rule": "one case = (group type, 2-4 sender tasks x 1-4 SealEnvelope calls on 1-2 groups, optional concurrent "
+                "GetShareableChainKey/IsChainKeyKnownForDevice reader, warm-up counter) x one goroutine schedule chosen at every "
+                "instrumented lock/unlock of pkg/secretstore and at every SimDisk read/write; non-trivial = at least one preemption; "
+                "distinct = distinct hash of the scheduler trace (task label and site per step).",
+        "required_probes": ["all_envelopes_opened"],
+        "assumptions": COMMON_ASSUMPTIONS + ["schedules are explored at the instrumented synchronisation points and datastore operations; code between two points runs atomically"],
+    },
 }
